@@ -14,15 +14,16 @@ FAULTS = [
     ("operand-range", ["  ldi r1, 5", "  ldi r16, 300", "  adiw r24, 64", "  sbi 32, 1", "  sbrc r1, 8", "  movw r1, r2", "  adiw r25, 1", "  in r1, 64"]),
     ("operand-count", ["  mov r1", "  nop r1", "  ldi r16", "  ret 5"]),
     ("undefined-symbol-instruction", ["  ldi r16, undefined_sym", "  rjmp undefined_label", "  lds r16, nosuch + 1"]),
-    ("undefined-symbol-data", ["  .db undefined_sym", "  .dw 1, undefined_sym", "  .dq nosuch"]),
+    ("undefined-symbol-data", ["  .db undefined_sym", "  .dw 1, undefined_sym", "  .dq nosuch", "  .dw frameequ, framevar, nosuch", "  .db low(nosuch)"]),
     ("data-range", ["  .db 256", "  .dw 65536", "  .db -129", "  .dd 4294967296", "  .dw \"str\""]),
-    ("undefined-symbol-set", [".set newset = undefined_sym + 1"]),
+    ("undefined-symbol-set", [".set newset = undefined_sym + 1", ".set framevar = undefined_sym", ".set FrameVar = framevar + undefined_sym",
+                              ".set framevar = framevar / (framevar - framevar)", ".set framevar = low(undefined_sym)"]),
     ("undefined-symbol-if", [".if undefined_sym\n.endif", ".if 0\n.elif undefined_sym\n.endif"]),
     ("duplicate-label", ["main_label: nop"]),
     ("error-directive", [".error \"stop\""]),
     ("unknown-directive", [".frobnicate 1", ".list"]),
     ("branch-range", ["  breq far_label"]),
-    ("undef-unknown", [".undef never_defined"]),
+    ("undef-unknown", [".undef never_defined", ".undef framereg\n.undef framereg"]),
     ("def-not-register", [".def myreg = notareg"]),
     ("device-unknown", [".device NoSuchDevice"]),
     ("wrong-segment", [".byte 3"]),
@@ -33,7 +34,7 @@ def valid_program(rng):
     n = rng.choice([3, 6, 10, 16])
     ls = proggen.program(rng, size=n, conditionals=False, macros=False)
     # a stable frame: a label that exists once, a far label, a macro that needs an argument
-    head = ["main_label: nop", ".macro needsarg", "  ldi r16, @0", ".endm"]
+    head = ["main_label: nop", ".macro needsarg", "  ldi r16, @0", ".endm", ".set framevar = 1", ".def framereg = r20", ".equ frameequ = 3"]
     tail = [".cseg", ".org 0x400", "far_label: nop"]
     return head + [l for l in ls if not l.startswith(".org") and "seg" not in l and not l.startswith(".message") and not l.startswith(".warning")] + tail
 
@@ -51,11 +52,13 @@ def run(res):
         cases.append(("\n".join(base) + "\n", "valid", None, None))
         for kind, variants in FAULTS:
             v = rng.choice(variants)
-            pos = rng.randrange(4, len(base) - 2)
+            pos = rng.randrange(7, len(base) - 2)
             ls = base[:pos] + v.split("\n") + base[pos:]
             # the line the error must name: the (first) injected line; for duplicate labels the second definition
             want = pos + 1
             if kind == "undefined-symbol-if" and v.startswith(".if 0"):
+                want = pos + 2
+            if kind == "undef-unknown" and "\n" in v:
                 want = pos + 2
             cases.append(("\n".join(ls) + "\n", kind, want, v))
     # messages: valid programs with .message/.warning sprinkled in, also inside taken/untaken conditional arms
@@ -63,7 +66,7 @@ def run(res):
     for base in bases:
         ls, expect = [], []
         for li, l in enumerate(base):
-            if li >= 4 and rng.random() < 0.25:
+            if li >= 7 and rng.random() < 0.25:
                 k = rng.choice(["message", "warning"])
                 txt = "t%d" % len(ls)
                 form = rng.randrange(4)
